@@ -405,14 +405,29 @@ theorem post_makeRef_go {st : St} (hI : Inv st) {orig : Nat} {forig : Frame}
         · intro _ s hIs _ hs
           have hres : OkOpt (some r) s := by
             intro v hv; cases hv; rw [hs.1]; exact hr1
+          have hjp : ∀ refDepth : Nat, Post
+              (if (!(isConstant name && refDepth == 0) && !isFuncObj obj) = true then do
+                  let __r ← modifyFrame orig fun f => { f with getMiss := f.getMiss + 1 }
+                  (fun _ => pure (some r) : Unit → M (Option Obj)) __r
+                else pure (some r)) s
+              (fun r s' => OkOpt r s' ∧ s'.frames.size = st.frames.size ∧ s'.cur = st.cur) := by
+            intro refDepth
+            split
+            · refine Post.bind (Q := fun _ s' => s'.frames.size = s.frames.size ∧ s'.cur = s.cur) ?_ ?_
+              · refine post_bump hIs (by omega) ?_ (fun s' _ h1 h2 => ⟨h1, h2⟩)
+                intro f; exact ⟨rfl, rfl, rfl, rfl⟩
+              · intro _ s' hIs' _ hs'
+                refine Post.pure hIs' ⟨?_, by omega, by rw [hs'.2, hs.2]⟩
+                intro v hv; cases hv; rw [hs'.1, hs.1]; exact hr1
+            · exact Post.pure hIs ⟨hres, hs.1, hs.2⟩
           split
-          · refine Post.bind (Q := fun _ s' => s'.frames.size = s.frames.size ∧ s'.cur = s.cur) ?_ ?_
-            · refine post_bump hIs (by omega) ?_ (fun s' _ h1 h2 => ⟨h1, h2⟩)
-              intro f; exact ⟨rfl, rfl, rfl, rfl⟩
-            · intro _ s' hIs' _ hs'
-              refine Post.pure hIs' ⟨?_, by omega, by rw [hs'.2, hs.2]⟩
-              intro v hv; cases hv; rw [hs'.1, hs.1]; exact hr1
-          · exact Post.pure hIs ⟨hres, hs.1, hs.2⟩
+          · next e' nm' =>
+            have he' : e' < s.frames.size := by
+              have := hr1; simp only [okObj, decide_eq_true_eq] at this; omega
+            obtain ⟨fe', hfe'⟩ := frame_exists he'
+            refine Post.bind_read (runM_getFrame hfe') ?_
+            exact hjp _
+          · exact hjp _
 
 theorem post_makeRef {st : St} (hI : Inv st) {orig : Nat} (ho : orig < st.frames.size) (name : String) :
     Post (makeRef orig name) st (fun r s => OkOpt r s ∧ s.frames.size = st.frames.size ∧ s.cur = st.cur) := by
@@ -449,8 +464,9 @@ theorem post_envGet {st : St} (hI : Inv st) {e : Nat} (he : e < st.frames.size) 
               | some _ => makeRef e name
           else do
             let tgt ← refValue re rn
+            let __do_lift ← getFrame re
             have __do_jp : Unit → M (Option Obj) := fun __r => pure (some (Obj.ref re rn))
-            if (!isConstant rn && !isFuncObj tgt) = true then do
+            if (!(isConstant rn && __do_lift.depth == 0) && !isFuncObj tgt) = true then do
                 let __r ←
                   modifyFrame e fun f =>
                       { store := f.store, outer := f.outer, depth := f.depth, cacheKey := f.cacheKey,
@@ -483,6 +499,7 @@ theorem post_envGet {st : St} (hI : Inv st) {e : Nat} (he : e < st.frames.size) 
           · exact (post_makeRef hIs (by omega) name).mono (fun _ _ _ _ h => h.1)
       · obtain ⟨tgt, hr, _, _⟩ := refValue_run hI hfre rn
         refine Post.bind_read hr ?_
+        refine Post.bind_read (runM_getFrame hfre) ?_
         dsimp only
         have hres : ∀ s : St, st.frames.size ≤ s.frames.size → OkOpt (some (Obj.ref re rn)) s := by
           intro s hs v hv; cases hv; exact okObj_mono hs _ hv1
